@@ -115,7 +115,8 @@ pub fn gen_packets(r: &mut Rng, thorough: bool, f: &mut dyn FnMut(u64, &Packet))
                 if kind != 14 && p.data[tp] == 0 && sweep { for t in 0..=255u8 { let mut q = p.clone(); q.data[tp + 1] = t; f(kind, &q); } }
             }
             if kind == 12 {
-                let tags: [u32; 14] = [0, 1, 2, 3, 4, 5, 255, 256, 257, 0x0100_0003, 0xffff_ff03, 0x0001_0000, 0xffff_ffff, r.next() as u32];
+                let tags: [u32; 24] = [0, 1, 2, 3, 4, 5, 255, 256, 257, 0x0100_0003, 0xffff_ff03, 0x0001_0000, 0xffff_ffff, r.next() as u32,
+                                       0x0100_0000, 0x0200_0000, 0x0300_0000, 0x0001_0000, 0x0002_0000, 0x0003_0000, 0x0000_0100, 0x0000_0200, 0x0000_0300, 0x8000_0001];   // byte-swapped and shifted images of the valid tags
                 for t in tags.iter() { let mut q = p.clone(); q.data[6..10].copy_from_slice(&t.to_le_bytes()); f(kind, &q); }
                 if sweep { for b in 0..=255u8 { let mut q = p.clone(); q.data[6..10].copy_from_slice(&3u32.to_le_bytes()); q.data[10] = b; f(kind, &q); } }
                 { let mut q = p.clone(); let i = 11 + r.below(3) as usize; q.data[i] = r.range(1, 255) as u8; f(kind, &q); }   // non-zero padding
